@@ -241,6 +241,54 @@ func c19DBDriven(c *fw.Case) {
 		}
 		censuses++
 	}
+	// short sessions over what a killed process leaves behind: an empty table folder (killed between the MkdirAll of a
+	// flush and the first file), a table folder with only an empty metadata file, a leftover compaction folder. The
+	// garbage collector is held off for these sessions: a finalizer that happens to close a forgotten descriptor must
+	// not hide that Close forgot it.
+	for rs := 0; rs < 3; rs++ {
+		kind := []string{"empty-table-folder", "table-folder-with-empty-metadata-file", "leftover-compaction-folder"}[(c.Idx+rs)%3]
+		switch kind {
+		case "empty-table-folder":
+			_ = os.MkdirAll(filepath.Join(dir, fmt.Sprintf(simpledb.SSTablePattern, 900000+rs)), 0755)
+		case "table-folder-with-empty-metadata-file":
+			d := filepath.Join(dir, fmt.Sprintf(simpledb.SSTablePattern, 900000+rs))
+			_ = os.MkdirAll(d, 0755)
+			_ = os.WriteFile(filepath.Join(d, sstables.MetaFileName), nil, 0644)
+			if r.Intn(2) == 0 {
+				_ = os.WriteFile(filepath.Join(d, "data.rio"), gen.Bytes(r, 30), 0644)
+			}
+		default:
+			d := filepath.Join(dir, simpledb.SSTableCompactionPathPrefix)
+			_ = os.MkdirAll(d, 0755)
+			if r.Intn(2) == 0 {
+				_ = os.WriteFile(filepath.Join(d, sstables.MetaFileName), nil, 0644)
+			}
+		}
+		oldGC := debug.SetGCPercent(-1)
+		db, err := simpledb.NewSimpleDB(dir, opts.Options()...)
+		if err == nil {
+			err = db.Open()
+		}
+		if err != nil {
+			debug.SetGCPercent(oldGC)
+			c.Violate("resources/open-error", "session over crash residue (%s): %v", kind, err)
+			return
+		}
+		_ = db.Put("after-residue", "v")
+		_, _ = db.Get("after-residue")
+		err = db.Close()
+		ok := err == nil && afterCloseCensus(c, dir, "session-over-crash-residue/"+kind, fmt.Sprintf("residue session %d [%s]", rs, opts))
+		debug.SetGCPercent(oldGC)
+		if err != nil {
+			c.Violate("resources/close-error", "%v", err)
+			return
+		}
+		if !ok {
+			return
+		}
+		c.Obs("sessions_over_planted_crash_residue", 1)
+		censuses++
+	}
 	if err := os.RemoveAll(dir); err != nil {
 		c.Violate("resources/remove-after-close-failed", "%v", err)
 		return
